@@ -813,3 +813,62 @@ def rule_queue_one(m, rid):
     else:
         r.error("fparser.one FortranParser not found (anchor vanished)")
     return r
+
+
+# ------------------------------------------------------------------------------------------------
+# directive line splicing (C14.R8): backslash-newline is deleted, nothing else (C99 5.1.1.2 phase 2)
+# ------------------------------------------------------------------------------------------------
+SPLICE_TABLE = [
+    (["#define A 1"], "#define A 1"),
+    (["#define LONG_NA\\", "ME 1"], "#define LONG_NAME 1"),
+    (["#define A \\", "  1"], "#define A   1"),
+    (["#if defined(X) && \\", "    defined(Y)"], "#if defined(X) &&     defined(Y)"),
+    (["#define F(x) \\", "  ((x) + \\", "   1)"], "#define F(x)   ((x) +    1)"),
+    (["#include \"a\\", "b.h\""], "#include \"ab.h\""),
+]
+
+
+def rule_directive_splice(m, rid):
+    from sa import pureeval as PE
+    r = RuleResult(rid, "a backslash-continued directive is spliced by deleting backslash-newline only: no character is added or removed at "
+                        "the joints, so the directive text in the tree is the text the preprocessor sees")
+    r.floor = 5
+    f = reader_func(m, "get_source_item")
+    block = None
+    for n in A.body_nodes(f.node):
+        if isinstance(n, ast.If):
+            for s in n.body:
+                if isinstance(s, ast.While) and any(isinstance(c, ast.Call) and isinstance(c.func, ast.Attribute) and c.func.attr == "endswith"
+                                                    and c.args and A.const(c.args[0]) == "\\" for c in ast.walk(s.test)):
+                    block = n.body
+    if block is None:
+        r.error("get_source_item: the backslash-continuation loop of directive lines was not found (anchor changed)")
+        return r
+    ev = PE.Evaluator({})
+    bad = []
+    try:
+        for phys, want in SPLICE_TABLE:
+            r.instances += 1
+            rest = list(phys[1:])
+            me = PE.Obj({"linecount": 3, "cpp_directive_item": lambda text, a=None, b=None: text})
+            env = {"line": phys[0], "get_single_line": lambda: rest.pop(0), "self": me, "startlineno": 3}
+            got = None
+            try:
+                ev.block(block, env)
+            except PE._Return as ret:
+                got = ret.value
+            ok = got == want and not rest
+            r.ob(ok, "%r -> %r" % (phys, got))
+            if not ok:
+                bad.append((phys, got, want))
+    except PE.Unsupported as err:
+        r.error("get_source_item: cannot interpret the directive splicing statically (%s)" % err)
+        return r
+    except (PE.PyRaise, IndexError) as err:
+        r.error("get_source_item: the directive splicing raises on a table line (%s)" % err)
+        return r
+    if bad:
+        phys, got, want = bad[0]
+        r.fail("get_source_item|directive-splice", "get_source_item: the physical lines %r are spliced to %r; deleting backslash-newline gives %r "
+               "(%d table rows disagree)" % (phys, got, want, len(bad)), m.loc(f, block[0]))
+    return r
